@@ -34,6 +34,9 @@ type sched struct {
 	EOFWithData bool   `json:"eof_with_data"`   // the terminating error accompanies the last bytes
 	FailAfter   int    `json:"fail_after"`      // -1: never; k: the source fails after delivering k bytes
 	Name        string `json:"name"`
+	// Hesitant h > 0: every h-th Read call returns (0, nil) first - permitted by the io.Reader contract
+	// (discouraged), never twice in a row; what is delivered, and in which segments, is unchanged
+	Hesitant int `json:"hesitant,omitempty"`
 }
 
 var errInjected = errors.New("injected I/O failure")
@@ -46,10 +49,12 @@ type schedReader struct {
 	fail      int
 	delivered int
 	reads     int
+	hes       int
+	lastZero  bool
 }
 
 func newSchedReader(data []byte, s sched) *schedReader {
-	return &schedReader{data: data, sizes: s.Sizes, eofWD: s.EOFWithData, fail: s.FailAfter}
+	return &schedReader{data: data, sizes: s.Sizes, eofWD: s.EOFWithData, fail: s.FailAfter, hes: s.Hesitant}
 }
 
 // Read mirrors IO.base_read of the Coq model exactly.
@@ -58,6 +63,11 @@ func (r *schedReader) Read(p []byte) (int, error) {
 	if len(p) == 0 {
 		return 0, nil
 	}
+	if r.hes > 0 && r.reads%r.hes == 0 && !r.lastZero {
+		r.lastZero = true
+		return 0, nil
+	}
+	r.lastZero = false
 	lim := len(r.data)
 	if r.fail >= 0 && r.fail < lim {
 		lim = r.fail
@@ -179,7 +189,8 @@ type loaderFn func(io.Reader) (*meta.Data, io.Reader, error)
 var loaders = map[string]loaderFn{"png": pngmeta.Load, "jpeg": jpegmeta.Load, "webp": webpmeta.Load, "auto": autometa.Load}
 
 // read sizes used when draining a returned stream: callers read in all sorts of ways, zero-length reads included
-var drainPatterns = [][]int{{512}, {1}, {0, 7}, {3, 0, 1, 0, 5}, {4096}, {65536}, {2, 4095}}
+// a negative entry: hand the rest to io.Copy (which uses the stream's WriteTo when it has one)
+var drainPatterns = [][]int{{512}, {1}, {0, 7}, {3, 0, 1, 0, 5}, {4096}, {65536}, {2, 4095}, {-1}, {5, -1}, {0, 300, -1}, {4096, 1, -1}}
 var drainCounter uint32
 
 func drainStream(s io.Reader) ([]byte, string) {
@@ -193,6 +204,18 @@ func drainStreamPattern(s io.Reader, pat []int) ([]byte, string) {
 	zero := 0
 	for i := 0; i < 1<<30; i++ {
 		k := pat[i%len(pat)]
+		if k < 0 {
+			var rest bytes.Buffer
+			_, err := io.Copy(&rest, s)
+			out = append(out, rest.Bytes()...)
+			switch {
+			case err == nil:
+				return out, "eof"
+			case err == errInjected:
+				return out, "fail"
+			}
+			return out, "other:" + err.Error()
+		}
 		n, err := s.Read(buf[:k])
 		out = append(out, buf[:n]...)
 		if err != nil {
@@ -205,10 +228,12 @@ func drainStreamPattern(s io.Reader, pat []int) ([]byte, string) {
 			return out, "other:" + err.Error()
 		}
 		if n == 0 && k > 0 {
-			zero++
+			zero++ // consecutive empty reads; a hesitant source interleaves single ones
 			if zero > 1000 {
 				return out, "noprogress"
 			}
+		} else if n > 0 {
+			zero = 0
 		}
 	}
 	return out, "noend"
@@ -864,6 +889,26 @@ func genProfile(rng *rand.Rand, size int, compressible bool) []byte {
 		}
 	} else {
 		rng.Read(p)
+	}
+	// two times in five the payload looks like an ICC profile: 'acsp' at offset 36 and a big-endian
+	// declared size that is exact, smaller than, or larger than what is embedded (the containers carry
+	// the bytes they were given: what the profile says about itself must not change what is returned)
+	if size >= 132 && rng.Intn(5) < 2 {
+		copy(p[36:], "acsp")
+		declared := uint32(size)
+		switch rng.Intn(6) {
+		case 0:
+			declared = uint32(128 + rng.Intn(size-128))
+		case 1:
+			declared = uint32(size - 1 - rng.Intn(3))
+		case 2:
+			declared = uint32(size + 1 + rng.Intn(5000))
+		case 3:
+			declared = uint32(rng.Intn(128))
+		}
+		p[0], p[1], p[2], p[3] = byte(declared>>24), byte(declared>>16), byte(declared>>8), byte(declared)
+		n := uint32(rng.Intn(4))
+		p[128], p[129], p[130], p[131] = 0, 0, 0, byte(n)
 	}
 	return p
 }
